@@ -139,7 +139,7 @@ class RepeatedNodeWrapper(MutableSequence[_M]):
         if length is None:
             length = len(self._repeated.items)
         for i, value in enumerate(values):
-            if i or index:
+            if index or (i and not length):
                 tokens.extend(copy.deepcopy(self._separators))
                 tokens.extend(value.detach())
             elif length:
